@@ -3,6 +3,7 @@ package checks
 import (
 	"bytes"
 	"fmt"
+	"os"
 	"strings"
 	"time"
 
@@ -22,6 +23,8 @@ var c02Defects = []string{
 	"scope-date", "scope-region", "scope-service", "scope-terminator", "date-skew-past", "date-skew-future", "date-garbled",
 	"presign-expired", "presign-expires-altered", "presign-param-altered", "presign-wrong-secret", "presign-sig-digit",
 	"chunk-data-altered", "chunk-sig-altered", "trailer-altered", "payload-hash-wrong",
+	// a query argument given twice, the unsigned value first (a server that verifies one occurrence and acts on the other)
+	"presign-dup-expires-first", "presign-dup-arg-first", "query-dup-arg-first",
 }
 
 type c02Prog struct {
@@ -177,7 +180,11 @@ func c02Apply(e *env.Env, fx *routes.Fixture, rt *routes.Route, p *c02Prog) (sg 
 	} else if p.Mode != s3c.ModePresign && p.Mode != s3c.ModeSigned && p.Mode != s3c.ModeUnsigned {
 		rq.Mode = s3c.ModeSigned
 	}
-	rq.Headers = append(rq.Headers, KV{K: "X-Amz-Probe", V: "signed-value"})
+	if p.Mode != s3c.ModePresign {
+		// (with query-string authentication the server-side signer moves X-Amz-* headers into the query, so a
+		// signed extra header would make every presigned request fail for that reason alone)
+		rq.Headers = append(rq.Headers, KV{K: "X-Amz-Probe", V: "signed-value"})
+	}
 	cl := e.Root()
 	co = envConn(p.FragMode)
 	switch p.Defect {
@@ -198,7 +205,7 @@ func c02Apply(e *env.Env, fx *routes.Fixture, rt *routes.Route, p *c02Prog) (sg 
 	case "payload-hash-wrong":
 		// validly signed, but the declared payload hash is not the hash of the body that is sent
 		rq.PayloadHash = "5f70bf18a086007016e948b04aed3b82103a36bea41755b6cddfaf10ace3c6ef"
-	case "presign-expired":
+	case "presign-expired", "presign-dup-expires-first":
 		rq.Time = e.S.Now().Add(-20 * time.Minute)
 		rq.Expires = 600
 		e.S.FaultsFired["skew"]++
@@ -262,6 +269,32 @@ func c02Apply(e *env.Env, fx *routes.Fixture, rt *routes.Route, p *c02Prog) (sg 
 		}
 	case "presign-param-altered":
 		if !replaceInTarget(sg, "X-Amz-Date=", "zz-extra=1&X-Amz-Date=") {
+			return nil, nil, false
+		}
+	case "presign-dup-expires-first":
+		// an expired URL with a second, longer X-Amz-Expires placed in front of the signed one
+		i := strings.Index(sg.Target, "?")
+		if i < 0 {
+			return nil, nil, false
+		}
+		sg.Target = sg.Target[:i+1] + "X-Amz-Expires=604800&" + sg.Target[i+1:]
+	case "presign-dup-arg-first", "query-dup-arg-first":
+		// the first argument that is not part of the authentication is repeated in front with another value
+		i := strings.Index(sg.Target, "?")
+		if i < 0 {
+			return nil, nil, false
+		}
+		done := false
+		for _, kv := range strings.Split(sg.Target[i+1:], "&") {
+			k, _, _ := strings.Cut(kv, "=")
+			if k == "" || strings.HasPrefix(strings.ToLower(k), "x-amz-") {
+				continue
+			}
+			sg.Target = sg.Target[:i+1] + k + "=zz-unsigned-value&" + sg.Target[i+1:]
+			done = true
+			break
+		}
+		if !done {
 			return nil, nil, false
 		}
 	case "presign-sig-digit":
@@ -337,6 +370,9 @@ func (c02) Exec(c *core.Case) (out *core.Outcome) {
 	}
 	before := e.Snapshot()
 	res := e.RoundTrip(g, sg, co)
+	if os.Getenv("VGWSIM_DEBUG") != "" {
+		fmt.Fprintf(os.Stderr, "C02 defective request %s %s -> %d %s\n", sg.Method, sg.Target, res.Resp.Status, abbreviate(string(res.Resp.Body), 300))
+	}
 	after := e.Snapshot()
 	wire, _ := sg.Wire()
 	name := p.Route
@@ -408,7 +444,8 @@ func (c02) Exec(c *core.Case) (out *core.Outcome) {
 func c02DefectClass(d string) string {
 	switch d {
 	case "wrong-secret", "sig-digit", "signed-header-altered", "query-altered", "path-altered", "payload-altered",
-		"presign-wrong-secret", "presign-sig-digit", "presign-param-altered", "presign-expires-altered", "scope-date", "scope-service", "scope-terminator":
+		"presign-wrong-secret", "presign-sig-digit", "presign-param-altered", "presign-expires-altered", "scope-date", "scope-service", "scope-terminator",
+		"presign-dup-arg-first", "query-dup-arg-first":
 		return "signature-not-verified"
 	case "chunk-data-altered", "chunk-sig-altered", "trailer-altered", "payload-hash-wrong":
 		return "payload-integrity:" + d
